@@ -22,8 +22,43 @@ def sort_of(t):
     return t[1]
 
 
+class Tm(tuple):
+    """term node: a tuple whose hash is computed once (sub-terms are Tm too, so hashing a DAG is linear in its size instead of
+    exponential in its depth -- e.g. the value chain of `index -= step` in a loop)"""
+
+    def __hash__(self):
+        try:
+            return self.__dict__["_h"]
+        except KeyError:
+            h = tuple.__hash__(self)
+            self.__dict__["_h"] = h
+            return h
+
+    def __eq__(self, other):
+        if self is other:
+            return True
+        if isinstance(other, Tm) and hash(self) != hash(other):
+            return False
+        return tuple.__eq__(self, other)
+
+    def __ne__(self, other):
+        r = self.__eq__(other)
+        return r if r is NotImplemented else not r
+
+
+_INTERN = {}
+
+
+def _intern(t):
+    r = _INTERN.get(t)
+    if r is None:
+        _INTERN[t] = t
+        return t
+    return r
+
+
 def var(name, sort=INT):
-    return ("var", sort, name)
+    return _intern(Tm(("var", sort, name)))
 
 
 # known ranges of variables (name -> (lo, hi)); filled by Ctx.int; only used for sound simplification
@@ -88,7 +123,8 @@ def _bounds(t):
 
 
 def _mk(op, sort, *args):
-    return (op, sort) + tuple(args)
+    # hash-consing: structurally equal terms are one object, so equality tests between terms built on different paths are shallow
+    return _intern(Tm((op, sort) + tuple(args)))
 
 
 # ---------------------------------------------------------------- integer ops
